@@ -92,6 +92,10 @@ CouponHashSet<A>* CouponHashSet<A>::newSet(const void* bytes, size_t len, const 
   if (lgArrInts < hll_constants::LG_INIT_SET_SIZE) {
     lgArrInts = HllUtil<>::computeLgArrInts(SET, couponCount, lgK);
   }
+  if (lgArrInts > lgK - 3) { // a set grows up to 2^(lgConfigK - 3) coupons and is then promoted to HLL
+    throw std::invalid_argument("Attempt to deserialize invalid CouponHashSet with lgArrInts > lgConfigK - 3. Found: "
+                                + std::to_string(lgArrInts));
+  }
   // Don't set couponCount in sketch here;
   // we'll set later if updatable, and increment with updates if compact
   const uint32_t couponsInArray = (compactFlag ? couponCount : (1 << lgArrInts));
@@ -155,6 +159,10 @@ CouponHashSet<A>* CouponHashSet<A>::newSet(std::istream& is, const A& allocator)
   const auto couponCount = read<uint32_t>(is);
   if (lgArrInts < hll_constants::LG_INIT_SET_SIZE) {
     lgArrInts = HllUtil<>::computeLgArrInts(SET, couponCount, lgK);
+  }
+  if (lgArrInts > lgK - 3) { // a set grows up to 2^(lgConfigK - 3) coupons and is then promoted to HLL
+    throw std::invalid_argument("Attempt to deserialize invalid CouponHashSet with lgArrInts > lgConfigK - 3. Found: "
+                                + std::to_string(lgArrInts));
   }
 
   ChsAlloc chsa(allocator);
